@@ -315,6 +315,15 @@ def impl_cli(case, ref, est):
         SETTINGS.save_traj_in_zip = True
         try:
             refusal = None
+            if case.get("warmup") and fmt != "kitti":
+                # an earlier evaluation of the same files in this process with a reducing option: must not influence the next one
+                warm = argparse.Namespace(**vars(args))
+                warm.t_end, warm.save_results = sref[len(sref) // 2], os.path.join(d, "warm.zip")
+                warm.downsample, warm.motion_filter = None, None
+                try:
+                    main_ape.run(warm)
+                except Exception:  # noqa
+                    pass
             try:
                 main_ape.run(args)
             except Exception as e:  # noqa
@@ -583,7 +592,7 @@ def gen(ctx):
             opts["t_start"], opts["t_end"] = sref[2], sref[-3]
         if cli_rel in ("trans_part", "point_distance") and i % 3 == 0:
             opts["unit"] = str(rng.choice(["millimeters", "centimeters", "kilometers"]))
-        cases.append({"kind": "ape_cli", "rel": CLI_REL[cli_rel], "cli_rel": cli_rel, "fmt": fmt,
+        cases.append({"kind": "ape_cli", "rel": CLI_REL[cli_rel], "cli_rel": cli_rel, "fmt": fmt, "warmup": bool(i % 4 == 1),
                       "ref": [H(p) for p in ref], "est": [H(p) for p in est],
                       "stamps_ref": [hexf(x) for x in sref], "stamps_est": [hexf(x) for x in sest], "opts": opts})
     return cases
